@@ -45,7 +45,7 @@ Owner == [
   lit_lead |-> "option:(fmt.v1.file_rule)#1", lit_first_field |-> "option:(fmt.v1.file_rule)#1", lit_after_colon |-> "option:(fmt.v1.file_rule)#1",
   lit_after_sep |-> "option:(fmt.v1.file_rule)#1", lit_nested_open |-> "option:(fmt.v1.file_rule)#1", lit_nested_after_sep |-> "option:(fmt.v1.file_rule)#1",
   lit_nested_close_after_sep |-> "option:(fmt.v1.file_rule)#1", lit_array_elem |-> "option:(fmt.v1.file_rule)#1",
-  lit_array_after_comma |-> "option:(fmt.v1.file_rule)#1", lit_array_close |-> "option:(fmt.v1.file_rule)#1", lit_close |-> "option:(fmt.v1.file_rule)#1",
+  lit_array_after_comma |-> "option:(fmt.v1.file_rule)#1", lit_array_elem_open |-> "option:(fmt.v1.file_rule)#1", lit_array_close |-> "option:(fmt.v1.file_rule)#1", lit_close |-> "option:(fmt.v1.file_rule)#1",
   extend_lead |-> "extend:google.protobuf.MessageOptions", extend_field_lead |-> "extend:google.protobuf.MessageOptions/field:ext_field",
   svc_lead |-> "service:S", rpc_lead |-> "service:S/rpc:Do", rpc_in_req |-> "service:S/rpc:Do", rpc_before_returns |-> "service:S/rpc:Do",
   rpc_body |-> "service:S/rpc:Do/option:idempotency_level#1", rpc_close_lead |-> "service:S/rpc:Do", rpc_plain_trail |-> "service:S/rpc:Plain",
@@ -70,7 +70,7 @@ Spelling == [
   lit_nested_sep |-> <<"none", "comma", "semicolon">>,
   lit_colon |-> <<"with", "without">>,
   lit_nested_size |-> <<"two", "one", "deep">>,
-  lit_array |-> <<"strings", "one", "empty", "messages", "angle_messages">>,
+  lit_array |-> <<"strings", "one", "empty", "messages", "angle_messages", "floats">>,
   float_form |-> <<"1.5", "1.5e3", ".5", "inf", "-inf", "nan", "5.", "1e-2">>,
   int_form |-> <<"31", "0x1F", "037", "-5", "0">>,
   string_form |-> <<"plain", "escapes", "concat", "single_quoted", "hex_escapes", "unicode">>,
@@ -101,7 +101,9 @@ SiteExists(s, w) ==
     [] s = "oneof_member_lead" -> TRUE
     [] s \in {"lit_nested_after_sep"} -> w.lit_nested_size # "one"
     [] s \in {"lit_array_elem", "lit_array_close"} -> w.lit_array # "empty"
-    [] s = "lit_array_after_comma" -> w.lit_array \in {"strings", "messages", "angle_messages"}
+    [] s = "lit_array_after_comma" -> w.lit_array \in {"strings", "messages", "angle_messages", "floats"}
+    \* right after the opening brace of a message literal that is an element of an array
+    [] s = "lit_array_elem_open" -> w.lit_array = "messages"
     [] s \in {"rpc_body", "rpc_close_lead", "rpcopt_after_keyword"} -> w.rpc_style = "body"
     [] s = "msgopt_after_keyword" -> w.msg_option = "simple"
     [] s = "empty_lead" -> w.empty_stmt = "in_message"
